@@ -41,6 +41,17 @@ class EventBase(ObjectWithFields):
         'version': 0,
     }
 
+    def check_parameters(self) -> None:
+        """
+        Raises ValueError if the event parameters cannot produce a schedule
+        """
+        if self.interval < 1 or self.timescale < 1:
+            raise ValueError('event interval and timescale must be positive')
+        if self.count < 0 or self.duration < 0 or self.start < 0:
+            raise ValueError('event count, duration and start must not be negative')
+        if self.version not in {0, 1}:
+            raise ValueError('event version must be 0 or 1')
+
     @abstractmethod
     def create_manifest_context(self, context: dict) -> dict:
         ...
